@@ -58,6 +58,9 @@ def c07_work(item, ctx):
     elif kind == "witness":
         run_engine(res, exe, ["witness"], "c07")
         res.nt("witness")
+    elif kind == "latched":
+        run_engine(res, exe, ["latched"], "c08")
+        res.nt("latched")
     elif kind == "rand":
         _, idx, nseq, nops = item
         run_engine(res, exe, ["c07rand", F.seed_for(ctx["seed"], "C07", idx) & 0xFFFFFFFF, nseq, nops], "c07")
@@ -85,6 +88,9 @@ def c08_work(item, ctx):
         if idx == 0 and kind == "fast":
             res.sample({"preemption": "%d sequences; every stack instruction of every task-level call (create/delete/process) preempted once by the tick ISR" % nseq,
                         "placements": res.counters["preempt_executions"], "isr_deferred_by_lock": res.counters["isr_deferred"]})
+    elif kind == "latched":
+        run_engine(res, ctx["exes"]["asan:tmrcheck"], ["latched"], "c08")
+        res.nt("latched")
     else:
         _, idx, nseq, maxops = item
         run_engine(res, ctx["exes"]["asan:tmrcheck"], ["c08plain", F.seed_for(ctx["seed"], "C08plain", idx) & 0xFFFFFFFF, nseq, maxops], "c08")
@@ -173,6 +179,7 @@ def for_property(prop):
             items = [("fast", i, 150 if q else 4000, 10) for i in range(16 if q else 64)]
             items += [("preempt", i, 1 if q else 6, 10) for i in range(16 if q else 48)]
             items += [("plain", i, 3000 if q else 30000, 14) for i in range(4 if q else 16)]
+            items += [("latched", 0, 0)]
             return items
         m.plan = plan
 
